@@ -245,7 +245,13 @@ def device_membership(ctx, rng):
         # device-level transforms: every polygon and the probe points move together, the original is untouched
         before = [p_.points.copy() for p_ in dev.polygons]
         pp0 = None if dev.probe_points is None else dev.probe_points.copy()
+        z00 = float(dev.layer.z0)
         for tname, new_dev, fmap in (
+            # boundary values: the identity and a pure shift in z (nothing moves in the plane) still give a NEW device
+            ("translate_identity", dev.translate(), lambda q: q),
+            ("translate_dz_only", dev.translate(0.0, 0.0, dz=0.75), lambda q: q),
+            ("rotate_zero", dev.rotate(0.0), lambda q: q),
+            ("scale_one", dev.scale(xfact=1.0, yfact=1.0), lambda q: q),
             ("scale", sc, lambda q: q * np.array([-1.5, 2.0])),
             ("scale_both_negative", dev.scale(xfact=-1.0, yfact=-1.0), lambda q: -q),
             ("scale_both_negative2", dev.scale(xfact=-2.0, yfact=-0.5), lambda q: q * np.array([-2.0, -0.5])),
@@ -271,6 +277,13 @@ def device_membership(ctx, rng):
                 check_stored(ctx, p_, f"Device.{tname}:{p_.name}", lambda k, w, **kw: ctx.fail(k, w, dict(device=kind, transform=tname, **kw)))
             if any(np.shares_memory(x.points, y.points) for x, y in zip(new_dev.polygons, dev.polygons)):
                 ctx.fail("aliasing", f"Device.{tname}: result shares polygon memory with the original", dict(device=kind))
+            if new_dev is dev or new_dev.layer is dev.layer or (pp0 is not None and new_dev.probe_points is not None and np.shares_memory(new_dev.probe_points, dev.probe_points)):
+                ctx.fail("aliasing:device-transform", f"Device.{tname} (not in place) returned the original device / its layer / its probe points", dict(device=kind, transform=tname))
+            if float(dev.layer.z0) != z00:
+                ctx.fail("operand-mutated", f"Device.{tname} (not in place) changed the original's layer.z0 from {z00} to {float(dev.layer.z0)}", dict(device=kind, transform=tname))
+                dev.layer.z0 = z00
+            if tname == "translate_dz_only" and abs(float(new_dev.layer.z0) - (z00 + 0.75)) > 1e-15:
+                ctx.fail("device-transform:translate_dz", f"Device.translate(dz=0.75): the new device's layer.z0 is {float(new_dev.layer.z0)}, expected {z00 + 0.75}", dict(device=kind))
     return first
 
 
